@@ -387,6 +387,8 @@ def eval_profiles(case, ctx):
             # --- read profiles: known features = exons/introns of l2 as a gene, read = l1
             for delta in (0, 1, 2):
                 cnt += _read_profiles(c, p, l1, l2, delta, ctx)
+            # --- split-exon read profile: known = disjoint blocks l2, read = l1
+            cnt += _split_profiles(c, p, l1, l2, ctx)
     ctx.evaluations += cnt - 1
     ctx.sample({"family": "profiles", "n": n, "kmax": case["kmax"], "checks_in_shard": cnt})
 
@@ -461,6 +463,60 @@ def _read_profiles(c, p, read, known_iso, delta, ctx):
                               {"kind": kind, "known": known, "read_features": rf, "delta": delta, "index": i,
                                "got": gp, "expected_at_index": verdict},
                               ctx.current_case)
+    return cnt
+
+
+def _split_profiles(c, p, read, blocks, ctx):
+    """NonOverlappingFeaturesProfileConstructor over sorted disjoint known blocks and sorted disjoint read blocks.
+    Set-theoretic result: a feature is +1 iff some feature of the other list overlaps it and satisfies the comparator;
+    untouched by the other list it is -1 in a gap between two of its features and 0 outside its span; touched but
+    not matched (overlap below the comparator's threshold) is UNSPECIFIED."""
+    cnt = 0
+    for name, cmpf, match in (
+            ("overlaps", c.overlaps, lambda r, g: True),
+            ("at_least_2", partial(c.overlaps_at_least_when_overlap, delta=2), None),
+            ("at_least_3", partial(c.overlaps_at_least_when_overlap, delta=3), None)):
+        d = 0 if match else int(name[-1])
+
+        def ok(r, g):
+            ov = min(r[1], g[1]) - max(r[0], g[0]) + 1
+            if ov <= 0:
+                return False
+            if match:
+                return True
+            return (g[0] <= r[0] and r[1] <= g[1]) or (r[0] <= g[0] and g[1] <= r[1]) or ov >= d
+
+        def expected(xs, ys):
+            out = []
+            for x in xs:
+                if any(ok(x, y) if xs is read else ok(y, x) for y in ys):
+                    out.append(1)
+                elif any(min(x[1], y[1]) >= max(x[0], y[0]) for y in ys):
+                    out.append(None)     # touched but not matched (overlap below the threshold): unspecified
+                elif any(y[1] < x[0] for y in ys) and any(y[0] > x[1] for y in ys):
+                    out.append(-1)
+                else:
+                    out.append(0)
+            return out
+        if not match and any(0 < min(r[1], g[1]) - max(r[0], g[0]) + 1 < d and
+                             ((g[0] <= r[0] and r[1] <= g[1]) or (r[0] <= g[0] and g[1] <= r[1]))
+                             for r in read for g in blocks):
+            # a feature nested in the other and shorter than the required overlap: the predicate answers by which
+            # end the two share (same unspecified corner as overlaps_at_least, DESIGN 8.3)
+            ctx.grey += 1
+            continue
+        prof = p.NonOverlappingFeaturesProfileConstructor(list(blocks), comparator=cmpf).construct_profile(list(read))
+        cnt += 1
+        eg, er = expected(blocks, read), expected(read, blocks)
+        ctx.grey += sum(1 for v in eg + er if v is None)
+        if any(e is not None and e != v for e, v in zip(eg, prof.gene_profile)) or len(eg) != len(prof.gene_profile):
+            ctx.violation("C19:split_read_profile:known-blocks:" + name,
+                          {"blocks": blocks, "read": read, "got": list(prof.gene_profile), "expected": eg},
+                          ctx.current_case)
+        if any(e is not None and e != v for e, v in zip(er, prof.read_profile)) or len(er) != len(prof.read_profile):
+            ctx.violation("C19:split_read_profile:read-blocks:" + name,
+                          {"blocks": blocks, "read": read, "got": list(prof.read_profile), "expected": er},
+                          ctx.current_case)
     return cnt
 
 
